@@ -86,7 +86,13 @@ def main():
     for m in muts:
         d = make_copy()
         try:
-            apply_mutant(d, m)
+            try:
+                apply_mutant(d, m)
+            except (subprocess.CalledProcessError, SystemExit) as e:
+                print(f"{m['prop']} {m['id']}: DOES-NOT-APPLY ({e})")
+                sys.stdout.flush()
+                bad += 1
+                continue
             tests = ""
             if a.tests:
                 ok, tail = run_tests(d)
